@@ -43,6 +43,7 @@ def windowOk (mn mx orig res : Int) : Bool :=
 def stepLine (s : S) (req resp : List String) : S × List String :=
   match req with
   | ["new", _] => ({ ops := s.ops, decodeErrs := s.decodeErrs, panics := s.panics }, [])
+  | "mismatch" :: prop :: rest => (s, [s!"MON {prop} " ++ " ".intercalate (rest.take 30)])
   | "mut" :: now :: me :: a :: b :: c :: d :: rest =>
     match decTime now, decMap me, decOptInt a, decOptInt b, decOptInt c, decOptInt d, decParam rest with
     | some now, some me, some a, some b, some c, some d, some (p, rest) =>
